@@ -38,8 +38,11 @@ def run(tier):
             rep.fail(clause, sig, detail={"data": e["data"], "solutions": e["solutions"][:4]}, group=clause,
                      replay={"data": e["data"], "db": e["db"]})
         elif e["ev"] == "impute":
-            sig = "single_impute data=%s side=%s" % (json.dumps(e["data"], sort_keys=True), e["unbalance"])
+            sig = "%s_impute data=%s side=%s" % (e.get("via", "single"), json.dumps(e["data"], sort_keys=True), e["unbalance"])
             rep.fail(clause, sig, detail=e, group=clause, replay={"data": e["data"], "db": e["db"]})
+        elif e["ev"] == "parallel":
+            sig = "parallel_impute data=%s parallel=%s single=%s" % (json.dumps(e["data"], sort_keys=True), e["parallel"], e["single"])
+            rep.fail(clause, sig, detail=e, group=clause, replay={"data": e["data"]})
         else:
             sig = "constrain products=%s" % e["products_in"]
             rep.fail(clause, sig, detail=e, group=clause, replay={"products": e["products_in"]})
